@@ -294,7 +294,8 @@ theorem chunksAux_encode : ∀ (cs : List Bytes) (X acc : Bytes) (fuel : Nat),
       have := writeHexInt_length_le _ hlen; omega
     have hlen16 : c.length < 16 ^ 16 := Nat.lt_trans hlen (by decide)
     have hhb := Spec.Http.head_not_blank_of_parseHex _ _ (parseHex_writeHexInt c.length hlen16)
-    simp only [hhb, Bool.false_eq_true, trimOWS_writeHexInt, h15, if_false, parseHex_writeHexInt _ hlen16]
+    have hnt := Spec.Http.no_tab_of_parseHex _ _ (parseHex_writeHexInt c.length hlen16)
+    simp only [hhb, hnt, Bool.false_eq_true, trimOWS_writeHexInt, h15, if_false, parseHex_writeHexInt _ hlen16]
     have hpos : c.length ≠ 0 := by simpa using hne
     cases hl : c.length with
     | zero => exact absurd hl hpos
